@@ -1,3 +1,5 @@
+#[cfg(feature = "clpfd")]
+use crate::compound::CompoundObject;
 use crate::engine::Engine;
 use crate::goal::{AnyGoal, Goal};
 use crate::lterm::{LTerm, LTermInner};
@@ -5,9 +7,25 @@ use crate::stream::Stream;
 use crate::user::User;
 
 #[cfg(feature = "clpfd")]
+use crate::operator::conj::Conj;
+#[cfg(feature = "clpfd")]
 use crate::operator::onceo;
 
 use crate::state::map_sum::map_sum;
+
+/// Collects the terms inside a compound object, descending into nested compound objects.
+#[cfg(feature = "clpfd")]
+fn compound_terms<U: User, E: Engine<U>>(
+    compound: &dyn CompoundObject<U, E>,
+    terms: &mut Vec<LTerm<U, E>>,
+) {
+    for child in compound.children() {
+        match child.as_term() {
+            Some(term) => terms.push(term.clone()),
+            None => compound_terms(child, terms),
+        }
+    }
+}
 
 /// Enforces the finite domain constraints by expanding the domains into sequences of numbers,
 /// and returning solutions for all numbers. Adds a `x == d` substitution for each `d` in
@@ -39,6 +57,12 @@ fn force_ans<U: User, E: Engine<U>>(x: LTerm<U, E>) -> Goal<U, E> {
                     force_ans(head),
                     force_ans(tail),
                 ]);
+                g.solve(solver, state)
+            },
+            (LTermInner::<U, E>::Compound(compound), _) => {
+                let mut terms = vec![];
+                compound_terms(compound.as_ref(), &mut terms);
+                let g: Goal<U, E> = Conj::from_vec(terms.into_iter().map(force_ans).collect());
                 g.solve(solver, state)
             },
             (_, _) => solver.start(&Goal::Succeed, state),
